@@ -1,8 +1,11 @@
 #!/bin/bash
 # runs the quick check of every property against each of its seeded changes; writes seeded/matrix.tsv
+# usage: tools/matrix.sh [glob-suffix]   e.g. tools/matrix.sh 'r2m*' appends only round-2 entries
 cd /verif
-: > seeded/matrix.tsv
-for s in seeded/C*-m*; do
+pat="${1:-*m*}"
+[ -z "$1" ] && : > seeded/matrix.tsv
+for s in seeded/C*-$pat; do
+  [ -f $s/patch.diff ] || continue
   id=$(basename $s | cut -d- -f1)
   out=$(tools/try_mutant.sh /verif/$s/patch.diff $id quick 2>&1)
   code=$(echo "$out" | sed -n 's/^exit=//p')
@@ -10,4 +13,3 @@ for s in seeded/C*-m*; do
   echo -e "$(basename $s)\t$id\t$code\t$sig" >> seeded/matrix.tsv
 done
 rm -rf replays/C*
-cat seeded/matrix.tsv
